@@ -115,3 +115,7 @@ def run(chk):
     internal = [o for o in chk.obs if (o.mode.startswith("ring mode") or "SelectInto" in o.name) and not o.ok()]
     L1m.settle(chk, internal, lambda: ptreplay.battery_scalarmult(chk.seed, maxn=maxn), "point formulas / selectors (internal)")
     chk.samples = [o.j() for o in chk.obs if "coefficient of" in o.name][:6]
+
+
+def safety_net(chk):
+    return ptreplay.battery_scalarmult(chk.seed, maxn=3)
